@@ -9,6 +9,12 @@ SPEC = {
          'sinks': {'C12_commit': 'cv_judge'}, 'n': {'quick': 1500, 'thorough': 40000}},
         {'pkg': 'execute', 'src': 'harness/execute/c12_test.go', 'test': 'TestVerif_C12_exec', 'fakes': True,
          'sinks': {'C12_exec': 'ev_judge'}, 'n': {'quick': 1200, 'thorough': 30000}},
+        {'pkg': 'commit', 'src': ['harness/commit/c12_test.go', 'harness/commit/c11c12_hist_test.go', 'harness/commit/c12h_test.go'],
+         'test': 'TestVerif_C12_commit_hist', 'fakes': True,
+         'sinks': {'C12_commit_hist': 'cvh_judge', 'C12_commit_api': 'api_judge'}, 'n': {'quick': 8, 'thorough': 100}},
+        {'pkg': 'execute', 'src': ['harness/execute/c12_test.go', 'harness/execute/c11c12_hist_test.go', 'harness/execute/c12h_test.go'],
+         'test': 'TestVerif_C12_exec_hist', 'fakes': True,
+         'sinks': {'C12_exec_hist': 'evh_judge', 'C12_exec_api': 'api_judge'}, 'n': {'quick': 8, 'thorough': 100}},
     ],
     # class number = Roles.fclass_code of the field class whose role check is missing
     'known': {'9': 'F07'},
@@ -28,10 +34,24 @@ SPEC = {
             'config, unknown contract name), retry queries, empty inner maps, chain keys without configured F (execute: rejected by '
             'validateObservedChains whatever the role, so not counted as a rejection on role grounds); verdict of Plugin.ValidateObservation after a '
             'JSON round trip. non-trivial = at least one non-empty field and an observer that does not read every chain; '
-            'distinct by full input',
+            'distinct by full input. '
+            'commit_hist / exec_hist (long-lived instances): VERIF_N histories; per history one DON of 4 or 7 oracles, per oracle ONE real home-chain poller '
+            '(internal/reader homeChainPoller, 2 ms polling) over a scripted CCIPHome contract reader and ONE plugin (NewPlugin) on it, kept for the whole '
+            'history; 5..8 steps, each changes the chain configs on the contract (a chain given to / taken from an oracle keeping its others, the '
+            'destination taken / given, an oracle dropped from / added to every chain, F changed, readers rotated, a chain removed / added (rarely the '
+            'destination), two oracles swapped, a reader of another DON, several at once, or a change whose poll fails) and waits until every poller has '
+            'completed a fetch that started after the change; then observations generated against the CURRENT role map are validated on the long-lived '
+            'instances (instance 0 always - it has looked every oracle up before every change -, the instance of the step number and a random one; in the first '
+            'round every instance validates every oracle): one per oracle (the generator above) plus targeted ones - for every designation just removed an '
+            'observation of that oracle with a field class about the removed chain, for every designation just given a fully conformant observation that '
+            'includes the added chain. A case carries the poll results the pollers went through; the role map is computed in Coq (model: through the poller '
+            'state machine; property: latest successful poll only). commit_api / exec_api: after every step one instance is asked GetSupportedChainsForPeer, '
+            'GetKnownCCIPChains, GetChainConfig, GetFChain, GetAllChainConfigs, ChainSupport.SupportedChains / SupportsDestChain / KnownSourceChainsSlice',
     'trusted': ['home-chain reader answers (GetSupportedChainsForPeer, GetChainConfig) are scripted by a fake that mirrors '
                 'internal/reader/home_chain.go (no lookup errors other than unknown chain / unknown oracle)',
-                'JSON encoding of observations round-trips the fields validation looks at'],
+                'JSON encoding of observations round-trips the fields validation looks at',
+                'in the *_hist / *_api parts the home chain is the real poller; only the CCIPHome contract reader below it is scripted (getAllChainConfigs '
+                'answers / failures); the harness waits for two fetch attempts per poller after every change (the second can only start after setState of the first)'],
     'assumptions': ['query, observation and previous outcome are decodable (undecodable ones are rejected before any role check)',
                     'a plugin without discovery processor neither validates nor uses the discovery part (Plugin.Outcome guards it the same way)'],
     'level_text': 'Proof: Coq theorems over the executable model of commit/execute Plugin.ValidateObservation as wired: the verdict is '
@@ -40,10 +60,18 @@ SPEC = {
                   'numbers, RMN remote config, fee components, native prices, feed prices, fee-quoter updates, chain-fee updates, messages, '
                   'nonces, token data, costly flags, discovered addresses in both plugins), accept theorems for role-conformant observations, '
                   'witness refutation for the one class the code does not role-check (commit reports inside execute observations) and for the '
-                  'pre-repair functions (F04, F05, F06, F07); correspondence: plugin-level verdicts of both plugins against the model every run',
+                  'pre-repair functions (F04, F05, F06, F07); correspondence: plugin-level verdicts of both plugins against the model every run. '
+                  'Histories: C12_history_commit_verdict / C12_history_exec_verdict - for EVERY list of poller events (Start, successful / failed / partial '
+                  'fetches, reads, Close) interleaved with validation rounds, the verdict of a round is the characterisation above evaluated on the latest '
+                  'successfully fetched configuration alone (induction over the event list through the C18 snapshot theorem); hence '
+                  'C12_history_*_accepted_designated (a removed designation stops counting with the poll that shows it) and C12_history_*_accept (a new one counts '
+                  'at once); C12_history_role_map - every getter / ChainSupport answer after any event list is the Roles accessor on that configuration; '
+                  'C12_history_scripted_polls - state machine = latest successful poll for the harness\'s scripts. Correspondence for histories: long-lived '
+                  'plugins on real pollers with the role map changing between rounds, verdicts judged per round',
     'level_note': 'Trusted: Coq kernel, hand-written model, differential harness, scripted home chain. No axioms. The recorded class '
                   '(F07: commit reports in execute observations) masks mutants that only change the treatment of those fields from non-designated observers.',
     'modelled': 'commit.Plugin.ValidateObservation with merkleroot / tokenprice / chainfee / discovery validators, '
                 'execute.Plugin.ValidateObservation with validateObserverReadingEligibility, validateObservedSequenceNumbers and the '
-                'discovery validator; ChainSupport lookups over the home-chain configuration',
+                'discovery validator; ChainSupport lookups over the home-chain configuration; homeChainPoller (setState, getters) and '
+                'plugincommon.ChainSupport through the C18 model (Pollers.v) composed with Roles.v in RolesHist.v',
 }
